@@ -497,6 +497,85 @@ impl<'u> Tr<'u> {
         self.cur_file = self.u.files[file].clone();
         let declared: BTreeSet<String> = rq.params.iter().map(|(t, _)| t.replace(' ', "")).collect();
         let used = needed_lets(&scope, idents_of(&expr), &declared);
+        // a `let mut` the value depends on must not be modified between its declaration and its use, except by the
+        // methods the request names (which are then declared omissions)
+        {
+            fn mut_idents(p: &Pat, out: &mut Vec<String>) {
+                match p {
+                    Pat::Ident(i) if i.mutability.is_some() => out.push(i.ident.to_string()),
+                    Pat::Type(t) => mut_idents(&t.pat, out),
+                    Pat::Tuple(t) => t.elems.iter().for_each(|e| mut_idents(e, out)),
+                    Pat::Paren(r) => mut_idents(&r.pat, out),
+                    _ => {}
+                }
+            }
+            let mut names = Vec::new();
+            for l in &used {
+                mut_idents(&l.pat, &mut names);
+            }
+            names.retain(|n| !rq.ignore_assign.contains(n));
+            struct Mods<'m> {
+                names: &'m [String],
+                found: Vec<(String, String, Span)>,
+            }
+            impl<'m, 'ast> Visit<'ast> for Mods<'m> {
+                fn visit_stmt(&mut self, s: &'ast Stmt) {
+                    if let Stmt::Expr(e, _) = s {
+                        let mut cur = strip_wrappers(e);
+                        let mut methods = Vec::new();
+                        while let Expr::MethodCall(m) = cur {
+                            methods.push(m.method.to_string());
+                            cur = strip_wrappers(&m.receiver);
+                        }
+                        if let Expr::Path(p) = cur {
+                            if let Some(id) = p.path.get_ident() {
+                                if self.names.iter().any(|n| id == n) {
+                                    for m in methods {
+                                        self.found.push((id.to_string(), m, e.span()));
+                                    }
+                                }
+                            }
+                        }
+                    }
+                    syn::visit::visit_stmt(self, s);
+                }
+                fn visit_expr(&mut self, e: &'ast Expr) {
+                    let target = match e {
+                        Expr::Assign(a) => Some(&*a.left),
+                        Expr::Binary(b) if matches!(b.op, BinOp::AddAssign(_) | BinOp::SubAssign(_) | BinOp::MulAssign(_)) => Some(&*b.left),
+                        _ => None,
+                    };
+                    if let Some(Expr::Path(p)) = target {
+                        if let Some(id) = p.path.get_ident() {
+                            if self.names.iter().any(|n| id == n) {
+                                self.found.push((id.to_string(), "=".into(), e.span()));
+                            }
+                        }
+                    }
+                    syn::visit::visit_expr(self, e);
+                }
+                fn visit_item(&mut self, _: &'ast Item) {}
+            }
+            let mut mods = Mods { names: &names, found: vec![] };
+            mods.visit_block(body);
+            for (n, m, at) in mods.found {
+                if m == "=" {
+                    return self.err(at, format!("`{n}`, which {what} depends on, is assigned again after its `let`"));
+                }
+                if self.spec.ignore_methods.iter().any(|i| *i == m) {
+                    continue;
+                }
+                if rq.inplace.iter().any(|i| *i == m) {
+                    self.notes.push(format!(
+                        "{name}: `{n}` is also modified in place by `{m}` ({}:{}), which is not translated: the generated value is the one before that call",
+                        self.u.files[file],
+                        at.start().line
+                    ));
+                } else {
+                    return self.err(at, format!("`{n}`, which {what} depends on, is modified in place by `{m}` (not listed under `inplace`)"));
+                }
+            }
+        }
         let mut stmts: Vec<Stmt> = used.into_iter().map(Stmt::Local).collect();
         stmts.push(Stmt::Expr(expr.clone(), None));
         let hint = match &rq.ty {
